@@ -42,7 +42,8 @@ def _FieldMatches(signature, key, want):
 class Classifier:
   def __init__(self, prop):
     self.prop = prop
-    self.known = [f for f in Load()['findings'] if f['property'] == prop]
+    self.known = [f for f in Load()['findings']
+                  if f['property'] == prop or prop in f.get('also', ())]
     self.hit = {}
 
   def Match(self, signature):
@@ -59,7 +60,7 @@ class Classifier:
     for f in self.known:
       if f['id'] in self.hit:
         line = 'KNOWN-FINDING: property=%s %s [%s, reproduced %d time(s)]' % (
-            self.prop, f['what'], f['id'], len(self.hit[f['id']]))
+            f['property'], f['what'], f['id'], len(self.hit[f['id']]))
         print(line, flush=True)
         lines.append(line)
     return lines
